@@ -30,8 +30,12 @@ ROBOTS = {
     'empty': '',
     'twogroups': 'User-agent: otherbot\nUser-agent: wpull\nDisallow: /open\n\n'
                  'User-agent: *\nDisallow: /\n',
+    'prefix-nonl': 'User-agent: *\nDisallow: /priv',          # no final newline
 }
-SERVE = ['plain', 'chunked', 'redirect', 's500', 's404', 's403']
+SERVE = ['plain', 'chunked', 'redirect', 'redirect-body', 's500', 's404', 's403']
+REDIRECT_BODY = ('<html><head><title>301 Moved Permanently</title></head><body><center>'
+                 '<h1>301 Moved Permanently</h1></center><hr><center>nginx/1.2.3</center>'
+                 '</body></html>\n' * 2)
 
 LINKS = ['/priv/x', '/pub/y', '/priv/ok/z', '/priv2', '/open', '/pub/../priv/w']
 
@@ -63,8 +67,11 @@ def build_site(params):
             p['chunked'] = True
         return p
     hosts = {'a.test': dict(pages)}
-    if serve == 'redirect' and rb is not None:
+    if serve in ('redirect', 'redirect-body') and rb is not None:
         hosts['a.test']['/robots.txt'] = {'redirect': [301, '/r/robots-real.txt']}
+        if serve == 'redirect-body':
+            hosts['a.test']['/robots.txt']['body'] = REDIRECT_BODY
+            hosts['a.test']['/robots.txt']['ctype'] = 'text/html'
         hosts['a.test']['/r/robots-real.txt'] = {'body': rb, 'ctype': 'text/plain'}
     else:
         hosts['a.test']['/robots.txt'] = robots_page(rb)
@@ -172,7 +179,7 @@ def judge(params, site, ua, out, events):
                 continue
             status, text = effective_robots(site, org)
             robots_paths = {'/robots.txt'}
-            if serve == 'redirect':
+            if serve in ('redirect', 'redirect-body'):
                 robots_paths.add('/r/robots-real.txt')
             if q['target'] in robots_paths:
                 if org in loaded and q['target'] == '/robots.txt':
@@ -195,7 +202,7 @@ def judge(params, site, ua, out, events):
             if org not in site['hosts']:
                 continue
             status, text = effective_robots(site, org)
-            final = '/r/robots-real.txt' if (serve == 'redirect' and
+            final = '/r/robots-real.txt' if (serve in ('redirect', 'redirect-body') and
                                              ROBOTS[params['robots']] is not None
                                              and org == 'a.test') else '/robots.txt'
             if q['target'] == final and not (500 <= status <= 599):
@@ -243,7 +250,11 @@ def jobs(tier, seed):
             if tier == 'quick' and conc == 2 and rb not in ('prefix', 'big', 'groups'):
                 budget = 0
             js.append(dict(params=dict(robots=rb, conc=conc), budget=budget, prefix=[]))
-    for serve in ('chunked', 'redirect', 's500', 's404', 's403'):
+    for rb in ('prefix-nonl', 'allowin'):
+        js.append(dict(params=dict(robots=rb, serve='redirect-body', conc=1), budget=0,
+                       prefix=[]))
+        js.append(dict(params=dict(robots=rb, serve='plain', conc=1), budget=0, prefix=[]))
+    for serve in ('chunked', 'redirect', 'redirect-body', 's500', 's404', 's403'):
         for rb in ('prefix', 'all'):
             js.append(dict(params=dict(robots=rb, serve=serve, conc=1), budget=0, prefix=[]))
             js.append(dict(params=dict(robots=rb, serve=serve, conc=2), budget=1, prefix=[]))
